@@ -112,7 +112,9 @@ impl UrwRandomScheduler {
                 .and_modify(|parent_ct| *parent_ct += child_ct);
         }
 
-        self.min_event_count = *self.signature_event_counts.values().min().unwrap();
+        // The estimation run may not have made a single scheduling decision (e.g. it was cut by a
+        // `ContinueAfter(0)` step bound), in which case there are no counts to take the minimum of.
+        self.min_event_count = self.signature_event_counts.values().min().copied().unwrap_or(1);
 
         trace!(
             "Estimated event counts for URW (post-parent subsumption): {:?}",
